@@ -26,6 +26,8 @@ class Interp:
         self.assume_mode = False
         self.polarity = True
         self.q_ctx = []
+        from . import jsonmodel
+        jsonmodel.CUR[0] = path    # ground axiom instances of Json injections go to this path
 
     # ------------------------------------------------------------------ utilities
     def fresh_value(self, t, hint):
@@ -49,7 +51,7 @@ class Interp:
             # extension types (e.g. pyvc/fsmodel.py: optional exception values) build their own havoc'd value
             return t.fresh(self, hint)
         if isinstance(t, TUn):
-            return VUn(p.fresh(hint, t.sort()), t)
+            return t.wrap(p.fresh(hint, t.sort()))
         if isinstance(t, TOpt):
             v = VOpt(p.fresh(hint, t.sort()), t)
             self._assume_wf_expr(v.t.dt.val(v.e), t.inner, guard=z3.Not(v.is_none()))
@@ -319,6 +321,8 @@ class Interp:
             if any(("has_" + k) not in v.fields for k in keys):
                 return z3.BoolVal(True)
             return z3.Or([v.fields["has_" + k].e for k in keys] + [z3.BoolVal(False)])
+        if hasattr(v, "truth_expr"):
+            return v.truth_expr(self)
         if isinstance(v, (VFunc, VClass, VModule, VRec, VUn, VOpaque, VExc, VPath)):
             return z3.BoolVal(True)
         raise Unsupported("truth of %s" % type(v).__name__)
@@ -479,7 +483,7 @@ class Interp:
         if v is not None:
             return v
         from . import builtins as B
-        v = B.builtin_name(name)
+        v = B.builtin_name(name, self)
         if v is not None:
             return v
         v = self.ver.spec_name(name)
@@ -776,6 +780,10 @@ class Interp:
     def is_(self, a, b):
         if isinstance(a, VNone) or isinstance(b, VNone):
             return self.eq(a, b)
+        if not self.spec and (isinstance(a, VOpt) or isinstance(b, VOpt)):
+            a, b = self.force(a), self.force(b)
+            if isinstance(a, VNone) or isinstance(b, VNone):
+                return self.eq(a, b)
         if isinstance(a, (VObj, VFunc, VClass, VDictRec, VSeq, VMap, VSet, VOpaque)) or \
                 isinstance(b, (VObj, VFunc, VClass, VDictRec, VSeq, VMap, VSet, VOpaque)):
             return z3.BoolVal(a is b)
@@ -983,6 +991,15 @@ class Interp:
         return pats
 
     def _mk_forall(self, cs, cond, body):
+        if z3.is_true(z3.simplify(cond)) and z3.is_quantifier(body) and body.is_forall():
+            # forall x. True => (forall y. phi)  ==  forall x y. phi : one quantifier, so that a trigger mentioning
+            # both x and y can be chosen (z3 does not pull nested quantifiers by default)
+            n = body.num_vars()
+            vs = [z3.Const(body.var_name(k), body.var_sort(k)) for k in range(n)]
+            inner = z3.substitute_vars(body.body(), *reversed(vs))
+            if z3.is_implies(inner):
+                return self._mk_forall(list(cs) + vs, inner.arg(0), inner.arg(1))
+            return self._mk_forall(list(cs) + vs, z3.BoolVal(True), inner)
         pats = None
         if not self.ver.no_patterns:
             try:
@@ -1390,8 +1407,35 @@ class Interp:
                 if cl.startswith("forget:"):
                     self.forget_facts([x.strip() for x in cl[7:].split(",")], env)
                     continue
+                if cl.startswith("define:"):
+                    self.define_abbrev(cl[7:], nm, env, "%s/assert-after:%s#%d" % (c.short, nm, i))
+                    continue
                 self.path.prove(self.eval_spec(cl, env), "%s/assert-after:%s#%d" % (c.short, nm, i), "assert", where=cl,
                                 assume_form=self.eval_spec(cl, env, assume=True))
+
+    def define_abbrev(self, src, var, env, oname):
+        """cut-point clause `define:<uf term> := <defining expr>` after an assignment to local `var`:
+        the uninterpreted-function term is a *name* for the defining expression (the uf is defined by it; facts
+        about the uf must be justified against this definition by an R.lemma).  Obligation: the value just assigned
+        to `var` IS the defining expression -- checked as a validity with an empty path condition, so the definition
+        itself never enters the path condition -- and from here on `var` holds the uf term."""
+        term_src, def_src = src.split(":=", 1)
+        cur = env.lookup(var)
+        t = self.eval_spec_value(term_src.strip(), env)
+        d = self.eval_spec_value(def_src.strip(), env)
+        s = z3.Solver()
+        s.set("timeout", self.ver.timeout_ms)
+        s.add(z3.Not(self.eq(cur, d)))
+        r = s.check()
+        self.ver.obligation_sites.add(oname)
+        self.ver.note_assumption("`%s` abbreviates `%s` (definition of the uninterpreted function)" % (term_src.strip(), def_src.strip()))
+        if r == z3.unsat:
+            self.ver.record(Obligation(oname, "assert", "proved", path=list(self.path.taken), where="define:" + src))
+            env.find_env(var).vars[var] = t
+        else:
+            self.ver.record(Obligation(oname, "assert", "failed" if r == z3.sat else "unknown",
+                                       detail="value of %s is not the defining expression" % var,
+                                       path=list(self.path.taken), where="define:" + src))
 
     def ex_AnnAssign(self, s, env):
         if s.value is None:
